@@ -1,11 +1,92 @@
 import Fundraising.Spec.Frame
 import Fundraising.Proofs.ExecLemmas
 import Fundraising.Proofs.LedgerProofs
+import Fundraising.Proofs.ProgressStatus
+import Fundraising.Proofs.ProgressMsgs
 /-
   C08 / C09 / C13 / C16 — what a successful block does to each auction (the lifecycle moves
   at the right block; instalments are paid when due, once; the extension decision; the
   published results).  STATEMENTS ARE FIXED (cited by the Props files).
 -/
+namespace Fundraising.ProgressInv
+
+theorem xfersOf_eq (effs : List Eff) : xfersOf effs = xf effs := rfl
+
+/-- a settlement debits only the two escrows -/
+theorem settleXfers_src' {aid : Nat} {v : AView} {alloc refund : List (Acc × Int)} {rest : List Coin}
+    {R : Int} : ∀ x ∈ settleXfers aid v alloc refund rest R,
+      x.src = .sell v.a.id ∨ x.src = .pay v.a.id ∨ x.src = .pay aid := by
+  intro x hx
+  unfold settleXfers at hx
+  simp only [List.mem_append, List.mem_singleton] at hx
+  rcases hx with ((hx | hx) | hx) | hx
+  · exact Or.inl (payXfers_src x hx)
+  · subst hx; exact Or.inl rfl
+  · exact Or.inr (Or.inl (payXfers_src x hx))
+  · subst hx; exact Or.inr (Or.inr rfl)
+
+theorem foreign_settle {i j id : Nat} {a : Addr} (h : SrcOK j id a) (hid : id = j) (hj : j ≠ i) :
+    ¬ (a = .sell i ∨ a = .pay i) := by
+  subst hid
+  rcases h with h | h | h | h <;> subst h <;> simp [hj]
+
+theorem foreign_vest {i j id : Nat} {a : Addr} (h : SrcOK j id a) (hj : j ≠ i) : a ≠ .vest i := by
+  rcases h with h | h | h | h <;> subst h <;> simp [hj]
+
+/-- the filter of a whole block's transfers on the two escrows of auction `i` is the
+    settlement segment of iteration `i` -/
+theorem filter_settle {i : Nat} {views : List AView} {v : AView} {pre seg post : List Eff}
+    {alloc refund : List (Acc × Int)} {rest : List Coin} {R : Int}
+    (hids : ∀ (j : Nat) (w : AView), views[j]? = some w → w.a.id = j) (hv : views[i]? = some v)
+    (hfor : ∀ x ∈ xf pre ++ xf post, ∃ j w, j ≠ i ∧ views[j]? = some w ∧ SrcOK j w.a.id x.src)
+    (hx : xf seg = settleXfers i v alloc refund rest R) :
+    (xf (pre ++ seg ++ post)).filter (fun x => x.src = .sell i ∨ x.src = .pay i) =
+      settleXfers i v alloc refund rest R := by
+  rw [← hx]
+  apply filter_segment
+  · intro x hm
+    obtain ⟨j, w, hj, hw, hsrc⟩ := hfor x hm
+    exact decide_eq_false (foreign_settle hsrc (hids j w hw) hj)
+  · intro x hm
+    rw [hx] at hm
+    have hid := hids i v hv
+    have := settleXfers_src' x hm
+    rw [hid] at this
+    apply decide_eq_true
+    rcases this with h | h | h
+    · exact Or.inl h
+    · exact Or.inr h
+    · exact Or.inr h
+
+theorem vesting_of_settled {aid : Nat} {v v0 w : AView} {R : Int} {alloc refund : List (Acc × Int)}
+    {rest : List Coin} {L : List Transfer}
+    (hS : Settled aid v0 R w) (hR : 0 ≤ R) (hvq0 : v0.vqs = [])
+    (hs0 : v0.a.schedules = v.a.schedules) (hp0 : v0.a.payDenom = v.a.payDenom)
+    (ha0 : v0.a.auctioneer = v.a.auctioneer)
+    (hsched : (v.a.schedules.map (·.release)).Pairwise (· < ·))
+    (hL : ∀ x ∈ settleXfers aid v alloc refund rest R, x ∈ L) :
+    (v.a.schedules = [] → w.a.status = .finished ∧ w.vqs = []) ∧
+    (v.a.schedules ≠ [] → w.a.status = .vesting ∧
+      ∃ R parts, 0 ≤ R ∧ splitLoop R v.a.schedules R = some parts ∧
+        w.vqs.map (fun q => (q.release, q.amt)) = parts ∧
+        (∀ q ∈ w.vqs, q.released = false ∧ q.denom = v.a.payDenom ∧ q.auctioneer = v.a.auctioneer) ∧
+        ∃ x ∈ L, x.src = .pay aid ∧ x.dst = .vest aid ∧
+          x.coins = (if R = 0 then [] else [⟨v.a.payDenom, R⟩])) := by
+  have hV := hS.vesting hvq0 (by rw [hs0]; exact hsched)
+  rw [hs0, hp0, ha0] at hV
+  refine ⟨hV.1, fun hne => ?_⟩
+  obtain ⟨hst, parts, hsp, hmap, hall⟩ := hV.2 hne
+  refine ⟨hst, R, parts, hR, hsp, hmap, hall, proceedsOf aid v R, hL _ ?_, rfl, ?_, rfl⟩
+  · unfold settleXfers; simp
+  · have : v.a.schedules.isEmpty = false := by
+      cases hsc : v.a.schedules with
+      | nil => exact absurd hsc hne
+      | cons _ _ => rfl
+    unfold proceedsOf
+    simp [this]
+
+end Fundraising.ProgressInv
+
 namespace Fundraising
 
 /-- the state before the block, with the block's time set -/
@@ -17,14 +98,28 @@ theorem block_opens (st : State) (t : Int) (hok : (step st (.block t)).1.res = .
     (hv' : (step st (.block t)).2.core.views[i]? = some v') (hs : v.a.status = .standby) :
     (v.a.startTime ≤ t → v' = { v with a := { v.a with status := .started } }) ∧
     (t < v.a.startTime → v' = v) := by
-  sorry
+  obtain ⟨c1, c2, pre, seg, post, hstep, hv1, hnow, hfin, _, _, _⟩ := ProgressInv.block_inv st t hok i v hv
+  rw [hfin] at hv'
+  obtain ⟨h1, h2⟩ := ProgressInv.blockStep_standby hstep hv1 hs
+  rw [hnow] at h1 h2
+  constructor
+  · intro hle
+    rw [h1 hle] at hv'
+    exact (Option.some.inj hv').symm
+  · intro hlt
+    rw [h2 hlt, hv1] at hv'
+    exact (Option.some.inj hv').symm
 
 /-- an auction created when its start time has already passed is open at once -/
 theorem create_status (st : State) (m : CreateMsg) (hok : (step st (.msg (.create m))).1.res = .ok) :
     ∃ v, (step st (.msg (.create m))).2.core.views[st.core.views.length]? = some v ∧
       v.a.status = (if m.startTime ≤ st.core.now then .started else .standby) ∧
       v.bids = [] ∧ v.allowed = [] ∧ v.vqs = [] ∧ v.a.endTimes = [m.endTime] := by
-  sorry
+  obtain ⟨c', hh, hcore⟩ := ProgressInv.msg_ok st _ hok
+  obtain ⟨a, hviews, hst, hend⟩ := ProgressInv.createAuction_inv (c := { s := st.core, ctl := st.ctl }) (m := m) hh
+  refine ⟨{ a := a }, ?_, hst, rfl, rfl, rfl, hend⟩
+  rw [hcore, hviews]
+  simp
 
 /-- **open auctions are settled or extended at the first block at or after their current end
     time**, and left alone before it -/
@@ -35,7 +130,28 @@ theorem block_closes (st : State) (t : Int) (hok : (step st (.block t)).1.res = 
       (v'.a.status = .vesting ∨ v'.a.status = .finished) ∨
       (v'.a.status = .started ∧ v.a.type = .batch ∧ v'.a.endTimes.length = v.a.endTimes.length + 1)) ∧
     (t < v.a.lastEnd → v' = v) := by
-  sorry
+  obtain ⟨c1, c2, pre, seg, post, hstep, hv1, hnow, hfin, _, _, _⟩ := ProgressInv.block_inv st t hok i v hv
+  rw [hfin] at hv'
+  rcases ProgressInv.blockStep_started_cases hstep hv1 hs with
+    ⟨hlt, rfl⟩ | ⟨hdue, hty, R, w, rest, e, hR, hS, hw, _, _⟩ |
+    ⟨hdue, hty, mi, hmi, ⟨hde, next, hw⟩ | ⟨hde, R, w, rest, e, hR, hS, hw, _, _⟩⟩
+  · rw [hnow] at hlt
+    rw [hv1] at hv'
+    exact ⟨fun hle => absurd hle (by omega), fun _ => (Option.some.inj hv').symm⟩
+  · rw [hnow] at hdue
+    rw [hw] at hv'
+    cases hv'
+    exact ⟨fun _ => Or.inl hS.status_or, fun hlt => absurd hdue (by omega)⟩
+  · rw [hnow] at hdue
+    rw [hw] at hv'
+    cases hv'
+    refine ⟨fun _ => Or.inr ⟨hs, hty, ?_⟩, fun hlt => absurd hdue (by omega)⟩
+    show (v.a.endTimes ++ [next]).length = _
+    simp
+  · rw [hnow] at hdue
+    rw [hw] at hv'
+    cases hv'
+    exact ⟨fun _ => Or.inl hS.status_or, fun hlt => absurd hdue (by omega)⟩
 
 /-- **the extension decision** (C13): at an end time of a batch auction, with `mi` the
     matching computed on the recorded bids and `last` the number of matched bids recorded at
@@ -54,7 +170,27 @@ theorem block_extends_iff (st : State) (t : Int) (hok : (step st (.block t)).1.r
     v'.matchedLen = mi.matchedLen ∧
     -- published matched price (C16): the clearing price that was used, zero if nothing sold
     (v'.a.status ≠ .started → v'.a.matchedPrice = (if mi.total > 0 then mi.price else 0)) := by
-  sorry
+  obtain ⟨c1, c2, pre, seg, post, hstep, hv1, hnow, hfin, _, _, _⟩ := ProgressInv.block_inv st t hok i v hv
+  rw [hfin] at hv'
+  rcases ProgressInv.blockStep_started_cases hstep hv1 hs with
+    ⟨hlt, rfl⟩ | ⟨hdue', hty', _⟩ |
+    ⟨hdue', hty', mi', hmi', ⟨hde, next, hw⟩ | ⟨hde, R, w, rest, e, hR, hS, hw, _, _⟩⟩
+  · rw [hnow] at hlt
+    exact absurd hdue (by omega)
+  · rw [hty] at hty'; cases hty'
+  · rw [hmi] at hmi'
+    cases hmi'
+    rw [hw] at hv'
+    cases hv'
+    exact ⟨⟨fun _ => hde, fun _ => hs⟩, rfl, rfl, fun hne => absurd hs hne⟩
+  · rw [hmi] at hmi'
+    cases hmi'
+    rw [hw] at hv'
+    cases hv'
+    obtain ⟨hb, hm, hp⟩ := hS.keeps
+    have hst : v'.a.status ≠ .started := by
+      rcases hS.status_or with h | h <;> rw [h] <;> simp
+    exact ⟨⟨fun h => absurd h hst, fun h => absurd h hde⟩, hb, hm, fun _ => hp⟩
 
 /-- **settlement transfers of a batch auction** (C03/C04/C05/C16 tie the clearing result to
     what is actually transferred): allocations out of the selling escrow in ascending bidder
@@ -64,7 +200,7 @@ theorem batch_settlement_transfers (st : State) (t : Int) (hok : (step st (.bloc
     (i : Nat) (v v' : AView) (mi : MInfo) (hv : st.core.views[i]? = some v)
     (hv' : (step st (.block t)).2.core.views[i]? = some v')
     (hs : v.a.status = .started) (hty : v.a.type = .batch)
-    (hids : ∀ j w, st.core.views[j]? = some w → w.a.id = j)
+    (hids : ∀ (j : Nat) (w : AView), st.core.views[j]? = some w → w.a.id = j)
     (hmi : calcBatch v.a v.bids v.allowed = some mi) (hsettled : v'.a.status ≠ .started) :
     ∃ rest proceeds,
       (xfersOf (step st (.block t)).1.effs).filter (fun x => x.src = .sell i ∨ x.src = .pay i) =
@@ -76,7 +212,29 @@ theorem batch_settlement_transfers (st : State) (t : Int) (hok : (step st (.bloc
         ++ [proceeds] ∧
       proceeds.src = .pay i ∧
       proceeds.dst = (if v.a.schedules.isEmpty then .user v.a.auctioneer else .vest i) := by
-  sorry
+  obtain ⟨c1, c2, pre, seg, post, hstep, hv1, hnow, hfin, hseg, heffs, hfor⟩ :=
+    ProgressInv.block_inv st t hok i v hv
+  rw [hfin] at hv'
+  rcases ProgressInv.blockStep_started_cases hstep hv1 hs with
+    ⟨hlt, rfl⟩ | ⟨hdue', hty', _⟩ |
+    ⟨hdue', hty', mi', hmi', ⟨hde, next, hw⟩ | ⟨hde, R, w, rest, e, hR, hS, hw, he, hx⟩⟩
+  · rw [hv1] at hv'
+    cases hv'
+    exact absurd hs hsettled
+  · rw [hty] at hty'; cases hty'
+  · rw [hw] at hv'
+    cases hv'
+    exact absurd hs hsettled
+  · rw [hmi] at hmi'
+    cases hmi'
+    have hse : seg = e := List.append_cancel_left (hseg.symm.trans he)
+    subst hse
+    have hF := ProgressInv.filter_settle hids hv hfor hx
+    have hid := hids i v hv
+    refine ⟨rest, ProgressInv.proceedsOf i v R, ?_, rfl, rfl⟩
+    rw [ProgressInv.xfersOf_eq, heffs, hF]
+    unfold ProgressInv.settleXfers ProgressInv.payXfers
+    rw [hid]
 
 /-- **settlement transfers of a fixed-price auction**: every bidder receives the sum of
     their accepted bids -/
@@ -84,7 +242,7 @@ theorem fixed_settlement_transfers (st : State) (t : Int) (hok : (step st (.bloc
     (i : Nat) (v v' : AView) (hv : st.core.views[i]? = some v)
     (hv' : (step st (.block t)).2.core.views[i]? = some v')
     (hs : v.a.status = .started) (hty : v.a.type = .fixed)
-    (hids : ∀ j w, st.core.views[j]? = some w → w.a.id = j) (hdue : v.a.lastEnd ≤ t) :
+    (hids : ∀ (j : Nat) (w : AView), st.core.views[j]? = some w → w.a.id = j) (hdue : v.a.lastEnd ≤ t) :
     (v'.a.status = .vesting ∨ v'.a.status = .finished) ∧ v'.bids = v.bids ∧
     ∃ rest proceeds,
       (xfersOf (step st (.block t)).1.effs).filter (fun x => x.src = .sell i ∨ x.src = .pay i) =
@@ -93,7 +251,25 @@ theorem fixed_settlement_transfers (st : State) (t : Int) (hok : (step st (.bloc
         ++ [⟨.send, .sell i, .user v.a.auctioneer, rest⟩] ++ [proceeds] ∧
       proceeds.src = .pay i ∧
       proceeds.dst = (if v.a.schedules.isEmpty then .user v.a.auctioneer else .vest i) := by
-  sorry
+  obtain ⟨c1, c2, pre, seg, post, hstep, hv1, hnow, hfin, hseg, heffs, hfor⟩ :=
+    ProgressInv.block_inv st t hok i v hv
+  rw [hfin] at hv'
+  rcases ProgressInv.blockStep_started_cases hstep hv1 hs with
+    ⟨hlt, rfl⟩ | ⟨hdue', hty', R, w, rest, e, hR, hS, hw, he, hx⟩ | ⟨hdue', hty', _⟩
+  · rw [hnow] at hlt
+    exact absurd hdue (by omega)
+  · rw [hw] at hv'
+    cases hv'
+    have hse : seg = e := List.append_cancel_left (hseg.symm.trans he)
+    subst hse
+    have hF := ProgressInv.filter_settle hids hv hfor hx
+    have hid := hids i v hv
+    refine ⟨hS.status_or, hS.keeps.1, rest, ProgressInv.proceedsOf i v R, ?_, rfl, rfl⟩
+    rw [ProgressInv.xfersOf_eq, heffs, hF]
+    unfold ProgressInv.settleXfers ProgressInv.payXfers
+    rw [hid]
+    simp
+  · rw [hty] at hty'; cases hty'
 
 /-- **the vesting split at settlement** (C09): the proceeds `R` moved out of the paying
     escrow are split by `splitLoop` over the schedule into the new vesting queues (all
@@ -110,7 +286,31 @@ theorem settlement_vesting (st : State) (t : Int) (hok : (step st (.block t)).1.
         (∀ q ∈ v'.vqs, q.released = false ∧ q.denom = v.a.payDenom ∧ q.auctioneer = v.a.auctioneer) ∧
         ∃ x ∈ xfersOf (step st (.block t)).1.effs, x.src = .pay i ∧ x.dst = .vest i ∧
           x.coins = (if R = 0 then [] else [⟨v.a.payDenom, R⟩])) := by
-  sorry
+  obtain ⟨c1, c2, pre, seg, post, hstep, hv1, hnow, hfin, hseg, heffs, hfor⟩ :=
+    ProgressInv.block_inv st t hok i v hv
+  rw [hfin] at hv'
+  rw [ProgressInv.xfersOf_eq, heffs]
+  rcases ProgressInv.blockStep_started_cases hstep hv1 hs with
+    ⟨hlt, rfl⟩ | ⟨hdue', hty', R, w, rest, e, hR, hS, hw, he, hx⟩ |
+    ⟨hdue', hty', mi, hmi, ⟨hde, next, hw⟩ | ⟨hde, R, w, rest, e, hR, hS, hw, he, hx⟩⟩
+  · rw [hv1] at hv'
+    cases hv'
+    exact absurd hs hsettled
+  · rw [hw] at hv'
+    cases hv'
+    have hse : seg = e := List.append_cancel_left (hseg.symm.trans he)
+    subst hse
+    exact ProgressInv.vesting_of_settled hS hR hvq rfl rfl rfl hsched
+      (fun x hm => ProgressInv.mem_segment (by rw [hx]; exact hm))
+  · rw [hw] at hv'
+    cases hv'
+    exact absurd hs hsettled
+  · rw [hw] at hv'
+    cases hv'
+    have hse : seg = e := List.append_cancel_left (hseg.symm.trans he)
+    subst hse
+    exact ProgressInv.vesting_of_settled hS hR hvq rfl rfl rfl hsched
+      (fun x hm => ProgressInv.mem_segment (by rw [hx]; exact hm))
 
 /-- **instalments are paid when due, each exactly once** (C09/C16): in a successful block an
     instalment's `released` flag flips exactly for the unreleased instalments whose release
@@ -127,13 +327,41 @@ theorem block_releases (st : State) (t : Int) (hok : (step st (.block t)).1.res 
         (fun q => (⟨.send, .vest i, .user v.a.auctioneer, if q.amt = 0 then [] else [⟨q.denom, q.amt⟩]⟩ : Transfer)) ∧
     (v'.a.status = .finished ↔ ∃ q, v.vqs.getLast? = some q ∧ q.release ≤ t ∧ q.released = false) ∧
     (v'.a.status = .finished ∨ v'.a.status = .vesting) := by
-  sorry
+  obtain ⟨c1, c2, pre, seg, post, hstep, hv1, hnow, hfin, hseg, heffs, hfor⟩ :=
+    ProgressInv.block_inv st t hok i v hv
+  rw [hfin] at hv'
+  have hrel := ProgressInv.blockStep_vesting hstep hv1 hs
+  obtain ⟨_, _, ⟨e, he, hx⟩, hview⟩ := ProgressInv.releaseVesting_inv hrel hv1
+  obtain ⟨w, hw, hwq, hwst, hwor⟩ := hview hsorted
+  rw [hw] at hv'
+  cases hv'
+  rw [hnow] at hwq hwst hx
+  have hse : seg = e := List.append_cancel_left (hseg.symm.trans he)
+  subst hse
+  refine ⟨hwq, ?_, ?_, ?_⟩
+  · rw [ProgressInv.xfersOf_eq, heffs]
+    refine (ProgressInv.filter_segment _ pre seg post ?_ ?_).trans hx
+    · intro x hm
+      obtain ⟨j, w', hj, _, hsrc⟩ := hfor x hm
+      exact decide_eq_false (ProgressInv.foreign_vest hsrc hj)
+    · intro x hm
+      rw [hx] at hm
+      obtain ⟨q, _, rfl⟩ := List.mem_map.mp hm
+      exact decide_eq_true rfl
+  · rw [hwst, hs]
+    simp
+  · rw [hs] at hwor
+    exact hwor
 
 /-- finished and cancelled auctions are never touched by a block -/
 theorem block_terminal (st : State) (t : Int) (i : Nat) (v : AView) (hv : st.core.views[i]? = some v)
     (hs : v.a.status = .finished ∨ v.a.status = .cancelled) :
     (step st (.block t)).2.core.views[i]? = some v := by
-  sorry
+  rcases ProgressInv.block_cases st t with ⟨c', hb, _, _, hc⟩ | ⟨_, hc⟩
+  · obtain ⟨c1, c2, pre, seg, post, hstep, hv1, _, hfin, _, _, _⟩ := ProgressInv.beginBlock_inv hb i v hv
+    rw [hc, hfin, ProgressInv.blockStep_terminal hstep hv1 hs]
+    exact hv1
+  · rw [hc]; exact hv
 
 /-- fixed-price bids: flagged matched at placement exactly when they buy at least one coin -/
 theorem fixed_bid_flag (st : State) (bidder : Acc) (aid : Nat) (price : Dec) (denom : Denom) (amt : Int)
@@ -143,6 +371,13 @@ theorem fixed_bid_flag (st : State) (bidder : Acc) (aid : Nat) (price : Dec) (de
     ∃ b, v'.bids = v.bids ++ [b] ∧ b.type = .fixed ∧ b.price = price ∧ b.denom = denom ∧ b.amt = amt ∧
       b.bidder = bidder ∧ (b.matched = true ↔ 0 < b.toSelling v.a.payDenom) ∧
       v'.a.remaining = v.a.remaining - b.toSelling v.a.payDenom := by
-  sorry
+  obtain ⟨c', hh, hcore⟩ := ProgressInv.msg_ok st _ hok
+  obtain ⟨b, h1, h2, h3, h4, h5, hmat, hview⟩ :=
+    ProgressInv.placeBid_fixed_inv (c := { s := st.core, ctl := st.ctl }) hh hv
+  rw [hcore, hview] at hv'
+  cases hv'
+  refine ⟨b, rfl, h1, h2, h3, h4, h5, ?_, rfl⟩
+  rw [hmat]
+  simp
 
 end Fundraising
